@@ -35,6 +35,11 @@ def shards(tier, seed):
     if tier == "quick":
         for kind in ("full", "diag", "identity", "identity_diag"):
             out.append(dict(id="C10/%s/Dx4.Dy4.big" % kind, kind=kind, Dx=4, Dy=4, big=True, cost=10, facts=dict(kind=kind, Dx=4, Dy=4)))
+        # eight observed dimensions with extremely small / large noise variances (2^-130, 2^130): the product of the variances leaves the
+        # double range although every matrix is perfectly conditioned
+        for kind in ("diag", "identity_diag"):
+            for sc in (-130, 130):
+                out.append(dict(id="C10/%s/Dx8.Dy8.huge.s%d" % (kind, sc), kind=kind, Dx=8, Dy=8, big=2, huge=sc, cost=14, facts=dict(kind=kind, Dx=8, Dy=8)))
         for kind, Dx, Dy in (("full", 5, 5), ("diag", 5, 5), ("full", 6, 3), ("identity", 5, 5)):
             out.append(dict(id="C10/%s/Dx%d.Dy%d.large" % (kind, Dx, Dy), kind=kind, Dx=Dx, Dy=Dy, big=5, cost=12, facts=dict(kind=kind, Dx=Dx, Dy=Dy)))
     return out
@@ -55,6 +60,8 @@ def run_shard(shard, ctx):
             variants += [("Sigma", "updated")]
         if kind != "nncontrol":
             variants += [("Lambda", "fresh"), ("SigmaLambda", "fresh"), ("all", "fresh"), ("Sigma", "updated"), ("Sigma", "sliced")] + ([("Sigma", "replaced")] if kind in ("full", "diag") else []) + ([("b_none", "fresh"), ("b_none", "sliced")] if not kind.startswith("identity") else [])
+        if shard.get("huge"):
+            vis, variants = [100], [("Sigma", "fresh")]  # (seed-generic values: the integer catalogue stops at small sizes)
         for vi, (ctor, prep) in [(v, va) for v in vis for va in variants]:
             if (ctor, prep) != ("Sigma", "fresh") and vi not in (0, 100):
                 continue
@@ -65,6 +72,8 @@ def run_shard(shard, ctx):
             M = objs.mat_batch(Dy, Dx, R, vi, seed, tag + ("M",))
             b = objs.vecn_batch(Dy, R, vi, seed, tag + ("b",))
             Sy = objs.spd_batch(Dy, R, vi, seed, tag + ("Sy",), diag=diag)
+            if shard.get("huge"):
+                Sy = Sy * 2.0 ** shard["huge"]
             with ctx.guard("prepare." + prep, dict(ctor=ctor, prep=prep)) as g:
                 if prep == "updated" and kind == "nncontrol":
                     # used with this batch of control variables, then update_Sigma, then used again with the same array
